@@ -81,6 +81,8 @@ func isFalseConst(v ssa.Value) bool {
 
 func c01(c *Ctx) {
 	r := c.R
+	r.Rule("PATH(tombstone): the delete handler treats a cache.DeletedFinalStateUnknown (delivered by value) like the object inside it: both reach the release, and no assertion to the pointer type exists")
+	c.Tombstone("PATH", quotaPluginPkg, "Plugin", "OnPodDelete", "handlePodDelete")
 	r.Decides("in every pod-event entry point, adding a pod to a quota's cache is always followed by adding its request, removing it is always preceded by removing its request (and used), and never followed by them; marking a pod assigned is always followed by adding its used, un-marking is preceded by removing it")
 	r.Decides("every delta handed up the tree is new-minus-old around the mutation (bracket), and a request delta applied starting at a quota's parent is computed from the quota's max-limited request")
 	r.Decides("the tree rebuild replays the saved request/used of every quota unconditionally")
